@@ -46,8 +46,9 @@ for run in $(python3 -c "import json,sys; print(' '.join(str(r) for r in json.lo
     HOME=/nonexistent-home XDG_CONFIG_HOME=/nonexistent-cfg XDG_RUNTIME_DIR=/nonexistent-run \
       setpriv --reuid="${run#sys}" --regid="${run#sys}" --clear-groups "$2" --dry-run --no-kmsg-log /nonexistent-out > "$3/out.$run" 2> "$3/err.$run" || true
   else
+    # "<uid>" or "<uid>.<gid>": the primary group is not the user (whose directory is users/<UID>, never users/<GID>)
     HOME=/nonexistent-home XDG_CONFIG_HOME=/nonexistent-cfg XDG_RUNTIME_DIR=/nonexistent-run \
-      setpriv --reuid="$run" --regid="$run" --clear-groups "$2" --user --dry-run --no-kmsg-log /nonexistent-out > "$3/out.$run" 2> "$3/err.$run" || true
+      setpriv --reuid="${run%%.*}" --regid="${run#*.}" --clear-groups "$2" --user --dry-run --no-kmsg-log /nonexistent-out > "$3/out.$run" 2> "$3/err.$run" || true
   fi
 done
 '''
@@ -102,7 +103,7 @@ def run(ctx):
     mism = 0
     for t in range(ntrees):
         tree = gen_tree(rng)
-        uids = ["root"] + rng.sample([1000, 2000, 3000, 42, 77], 3) + [rng.choice(["sys1000", "sys42"]), 0]      # also: system generator as a user, user generator as UID 0
+        uids = ["root"] + rng.sample([1000, 2000, 3000, 42, 77], 3) + [rng.choice(["sys1000", "sys42"]), 0, rng.choice(["1000.2000", "3000.1000", "42.0", "77.42"])]      # also: system generator as a user, user generator as UID 0, a user whose primary GID is another user's UID
         plan = {"dirs": [], "uids": uids, "layout": ["plain", "containers_symlink", "containers_symlink_abs", "systemd_symlink_abs", "users_symlink_abs", "systemd_symlink", "users_symlink",
                                                        "users_symlink_spelled:/etc/containers/users.real/", "users_symlink_spelled:/etc/containers//users.real", "users_symlink_spelled:/etc/containers/./users.real",
                                                        "users_symlink_spelled:../users.real/"][t % 11]}
@@ -140,7 +141,7 @@ def run(ctx):
                     if system:
                         want = not (where == "admin" and rel[:1] == ["users"])
                     else:
-                        want = where == "admin" and allowed_user(uid, rel)
+                        want = where == "admin" and allowed_user(int(str(uid).split(".")[0]), rel)
                     if used != want:
                         path = {"admin": "/etc/containers/systemd/", "distro": "/usr/share/containers/systemd/", "temp": "/run/containers/systemd/"}[where] + "/".join(rel)
                         cls = None
@@ -153,7 +154,7 @@ def run(ctx):
                         if system:
                             mo = vlib.run_model([case_line("root_includes", *rel)])[0]
                         else:
-                            mo = vlib.run_model([case_line("rootless_includes", str(uid), *rel)])[0]
+                            mo = vlib.run_model([case_line("rootless_includes", str(uid).split(".")[0], *rel)])[0]
                         if (mo == "OK\tTRUE") != used:
                             mism += 1
                             if mism <= 3:
